@@ -11,6 +11,7 @@ from __future__ import annotations
 
 import json
 from dataclasses import dataclass, field
+from enum import Enum
 from typing import Any, Dict, List, Optional, Set
 
 from . import core
@@ -30,11 +31,18 @@ Import ListNotations. Open Scope Z_scope."""
 from krrood.entity_query_language.predicate import Symbol  # noqa: E402
 
 
+class Status(str, Enum):            # a str-based enum whose values are in substring relation
+    ACTIVE = "active"
+    INACTIVE = "inactive"
+
+
 @dataclass(unsafe_hash=True)
 class Part(Symbol):
     name: str
     size: int = 1
     tag: int = field(default=1, compare=False)       # not part of == / hash: equal parts may differ in it
+    status: Status = Status.ACTIVE
+    codes: List[int] = field(default_factory=list, compare=False)     # a collection of builtin values (finding C11-h)
 
 
 @dataclass(unsafe_hash=True)
@@ -46,7 +54,8 @@ class Box(Part): ...
 
 
 @dataclass(unsafe_hash=True)
-class BigBox(Box): ...
+class BigBox(Box):
+    depth: int = 1                                   # an attribute only the subtype has (finding C11-i)
 
 
 @dataclass
@@ -65,12 +74,18 @@ class Unit(Symbol):
 
 
 @dataclass
+class Label(Symbol):                                 # a plain dataclass: == by value, NOT hashable (finding C11-j)
+    text: str
+
+
+@dataclass
 class Rack(Symbol):
     box: Box
     part: Part
     units: List[Unit] = field(default_factory=list)
     parts: List[Part] = field(default_factory=list)
     pset: Set[Part] = field(default_factory=set)   # a Set-typed collection attribute (pairwise unequal members)
+    labels: List[Label] = field(default_factory=list)     # only used by the unhashable-elements stream
 
     def __hash__(self):
         return hash(self.box)
@@ -82,6 +97,9 @@ class Rack(Symbol):
 
 @dataclass(eq=False)
 class WideRack(Rack):
+    def __len__(self):                               # container-like: a wide rack without units is FALSY
+        return len(self.units)
+
     def __hash__(self):
         return hash(self.box)
 
@@ -90,12 +108,16 @@ class WideRack(Rack):
 
 
 CLASSES = {"int": int, "str": str, "Part": Part, "Knob": Knob, "Box": Box, "BigBox": BigBox, "Unit": Unit,
-           "Rack": Rack, "WideRack": WideRack}
+           "Rack": Rack, "WideRack": WideRack, "Status": Status}
 CID = {n: i + 1 for i, n in enumerate(CLASSES)}          # 0 = no class
 OBJ_CLASSES = ["Part", "Knob", "Box", "BigBox", "Unit", "Rack", "WideRack"]
-ATTR = {"name": 0, "size": 1, "knob": 2, "box": 3, "part": 4, "parts": 5, "units": 6, "tag": 7, "opt": 8, "pset": 9}
-FIELDS = {"Part": ["name", "size", "tag"], "Unit": ["knob", "box", "part", "parts", "opt"], "Rack": ["box", "part", "units", "parts", "pset"]}
-BASE = {"Knob": "Part", "Box": "Part", "BigBox": "Part", "WideRack": "Rack"}       # where the fields are declared
+ATTR = {"name": 0, "size": 1, "knob": 2, "box": 3, "part": 4, "parts": 5, "units": 6, "tag": 7, "opt": 8, "pset": 9,
+        "status": 10, "codes": 11, "depth": 12}
+SCALARS = ("int", "str", "Status")
+ENUM0 = 2000
+ENUMS = ["ACTIVE", "INACTIVE"]
+FIELDS = {"Part": ["name", "size", "tag", "status", "codes"], "BigBox": ["name", "size", "tag", "status", "codes", "depth"], "Unit": ["knob", "box", "part", "parts", "opt"], "Rack": ["box", "part", "units", "parts", "pset"]}
+BASE = {"Knob": "Part", "Box": "Part", "WideRack": "Rack"}       # where the fields are declared
 STR0 = 1000
 STRS = ["n0", "n1", "n2"]
 
@@ -109,6 +131,7 @@ def issub(c: str, d: str) -> bool:
 
 
 _FIELD_TABLE: Optional[Dict[tuple, tuple]] = None
+_OPTIONAL: Dict[tuple, bool] = {}          # (owner class, attribute) -> WrappedField.is_optional
 
 
 def field_table() -> Dict[tuple, tuple]:
@@ -130,6 +153,7 @@ def field_table() -> Dict[tuple, tuple]:
                 if not node._wrapped_field_ or not names:
                     raise RuntimeError(f"field {cn}.{a}: no wrapped field / unknown endpoint {ty}")
                 t[(cn, a)] = (bool(node._is_iterable_), names[0])
+                _OPTIONAL[(cn, a)] = bool(node._wrapped_field_.is_optional)
         _FIELD_TABLE = t
     return _FIELD_TABLE
 
@@ -140,11 +164,13 @@ def gen_world(rng: core.Rng, nones: bool = False) -> List[dict]:
     knobs, boxes = [], []
     for _ in range(rng.randint(2, 3)):
         knobs.append(len(objs))
-        objs.append({"cls": "Knob", "name": rng.choice(STRS[:2]), "size": rng.randint(1, 2), "tag": rng.randint(1, 2)})
+        objs.append({"cls": "Knob", "name": rng.choice(STRS[:2]), "size": rng.randint(1, 2), "tag": rng.randint(1, 2),
+                     "status": rng.choice(ENUMS), "codes": rng.sample([1, 2, 3], rng.randint(0, 2))})
     for _ in range(rng.randint(2, 3)):
         boxes.append(len(objs))
         objs.append({"cls": rng.choice(["Box", "Box", "BigBox"]), "name": rng.choice(STRS[:2]), "size": rng.randint(1, 2),
-                     "tag": rng.randint(1, 2)})
+                     "tag": rng.randint(1, 2), "status": rng.choice(ENUMS), "codes": rng.sample([1, 2, 3], rng.randint(0, 2)),
+                     "depth": rng.randint(1, 2)})
     if rng.chance(0.3):
         boxes.append(len(objs))
         objs.append(dict(objs[boxes[0]], tag=rng.randint(1, 2)))      # value-equal twin of a box (tag may differ)
@@ -183,7 +209,10 @@ def build_world(objs: List[dict]) -> List[Any]:
     for o in objs:
         c = CLASSES[o["cls"]]
         if issubclass(c, Part):
-            built.append(c(o["name"], o["size"], o.get("tag", 1)))
+            x = c(o["name"], o["size"], o.get("tag", 1), Status[o.get("status", "ACTIVE")], list(o.get("codes", [])))
+            if c is BigBox:
+                x.depth = o.get("depth", 1)
+            built.append(x)
         elif c is Unit:
             opt = o.get("opt", o["part"])
             built.append(Unit(built[o["knob"]], built[o["box"]], built[o["part"]], [built[i] for i in o["parts"]],
@@ -214,6 +243,8 @@ def eq_keys(built: List[Any]) -> List[int]:
 # ------------------------------------------------------------------ patterns
 def gen_value(rng: core.Rng, objs: List[dict], kind: str):
     """kind: name | size | a class name (an object of that class)"""
+    if kind == "Status":
+        return ["e", rng.choice(ENUMS)]
     if kind == "str":
         return ["s", rng.choice(STRS if rng.chance(0.15) else STRS[:2])]
     if kind == "int":
@@ -224,6 +255,8 @@ def gen_value(rng: core.Rng, objs: List[dict], kind: str):
 
 def gen_list(rng: core.Rng, objs: List[dict], kind: str, lo: int, hi: int):
     n = rng.randint(lo, hi)
+    if kind == "Status":
+        return ["le", rng.sample(ENUMS, max(1, min(n, 2)))]
     if kind in ("str", "int"):
         vals = []
         for _ in range(n):
@@ -262,7 +295,7 @@ def gen_alist(rng: core.Rng, objs: List[dict], cname: str, depth: int, wild: boo
     for a in fs[:k]:
         it, end = ft[(cname, a)]
         r = rng.random()
-        if end in ("int", "str"):
+        if end in SCALARS:
             if r < 0.75:
                 ap = ["lit", gen_value(rng, objs, end)]
             elif r < 0.9:
@@ -301,6 +334,8 @@ def gen_alist(rng: core.Rng, objs: List[dict], cname: str, depth: int, wild: boo
             ap[0] = "sel_" + ap[0]
         if ap[0] == "match":
             ap[2] = gen_alist(rng, objs, end, depth - 1, wild, sel)
+            if ap[1] == "BigBox" and end != "BigBox" and rng.chance(0.3):
+                ap[2] = ap[2] + [["depth", ["lit", ["i", rng.randint(1, 2)]]]]     # an attribute only the subtype has
             if ap[2] == [] and not wild and it and not (ap[1] and not issub(end, ap[1])):
                 ap[2] = gen_alist(rng, objs, end, 1, wild, sel)
         out.append([a, ap])
@@ -314,6 +349,10 @@ def val_term(v) -> str:
         return f"(VI {core.zlit(x)})"
     if k == "s":
         return f"(VI {STR0 + STRS.index(x)})"
+    if k == "e":
+        return f"(VI {ENUM0 + ENUMS.index(x)})"
+    if k == "le":
+        return f"(VLI {core.zlist(ENUM0 + ENUMS.index(s) for s in x)})"
     if k == "o":
         return f"(VO {x + 1})"
     if k == "li":
@@ -357,10 +396,14 @@ def case_term(d: dict, keys: List[int]) -> str:
     for i, o in enumerate(objs):
         attrs = []
         for a in fields_of(o["cls"]):
-            v = o.get(a, 1) if a == "tag" else (o.get("opt", o["part"]) if a == "opt" else (o.get("pset", []) if a == "pset" else o[a]))
+            v = o.get(a, 1) if a in ("tag", "depth") else o.get("status", "ACTIVE") if a == "status" else o.get("codes", []) if a == "codes" else (o.get("opt", o["part"]) if a == "opt" else (o.get("pset", []) if a == "pset" else o[a]))
             if a == "name":
                 t = f"VI {STR0 + STRS.index(v)}"
-            elif a in ("size", "tag"):
+            elif a == "status":
+                t = f"VI {ENUM0 + ENUMS.index(v)}"
+            elif a == "codes":
+                t = f"VLI {core.zlist(v)}"
+            elif a in ("size", "tag", "depth"):
                 t = f"VI {v}"
             elif v is None:
                 t = "VO 0"                                   # None
@@ -373,9 +416,11 @@ def case_term(d: dict, keys: List[int]) -> str:
         trows.append(f"({i + 1}, {CID[o['cls']]}%nat)")
     subs = "; ".join(f"({CID[c]}, {CID[e]})%nat" for c in CLASSES for e in CLASSES if issub(c, e))
     flds = "; ".join(f"({CID[c]}, {ATTR[a]}, {'true' if it else 'false'}, {CID[e]})%nat" for (c, a), (it, e) in sorted(ft.items()))
-    return ("{| c_world := [%s]; c_types := [%s]; c_sub := [%s]; c_fields := [%s]; c_objcls := [%s]%%nat; c_rootsel := %s; c_T := %d%%nat; "
+    return ("{| c_world := [%s]; c_types := [%s]; c_sub := [%s]; c_fields := [%s]; c_opt := [%s]%%nat; c_objcls := [%s]%%nat; c_rootsel := %s; c_T := %d%%nat; "
             "c_pat := %s; c_dom := %s |}") % (
-        "; ".join(wrows), "; ".join(trows), subs, flds, "; ".join(str(CID[c]) for c in OBJ_CLASSES),
+        "; ".join(wrows), "; ".join(trows), subs, flds,
+        "; ".join(f"({CID[c]}, {ATTR[a]})" for (c, a), o in sorted(_OPTIONAL.items()) if o),
+        "; ".join(str(CID[c]) for c in OBJ_CLASSES),
         "true" if d.get("rootsel") else "false", CID[d["T"]],
         alist_term(d["pat"]), core.zlist(i + 1 for i in d["dom"]))
 
@@ -385,6 +430,10 @@ def py_value(v, built):
     k, x = v
     if k in ("i", "s"):
         return x
+    if k == "e":
+        return Status[x]
+    if k == "le":
+        return [Status[y] for y in x]
     if k == "o":
         return built[x]
     if k in ("li", "ls"):
@@ -434,6 +483,10 @@ def run_impl(d: dict):
     from krrood.entity_query_language.match import entity_matching
     from krrood.entity_query_language.quantify_entity import an
     field_table()
+    if d.get("nodomain"):
+        # no explicit domain: the root ranges over the live instances of T in the symbol graph -- start from an empty graph
+        SymbolGraph().clear()
+        SymbolGraph()
     built = build_world(d["objs"])
     keys = eq_keys(built)
     index = {id(x): i for i, x in enumerate(built)}
@@ -442,10 +495,14 @@ def run_impl(d: dict):
             return [1, 0]
         if isinstance(v, bool):
             return [9, 0]
+        if isinstance(v, Status):
+            return [0, ENUM0 + ENUMS.index(v.name)]
         if isinstance(v, int):
             return [0, v]
         if isinstance(v, str):
             return [0, STR0 + STRS.index(v)]
+        if isinstance(v, list) and v and all(isinstance(x, int) for x in v):
+            return [2, list(v)]
         if isinstance(v, (list, set, frozenset, tuple)):
             return [3, sorted(index.get(id(x), -1) + 1 for x in v)]
         return [1, index.get(id(v), -1) + 1]
@@ -454,7 +511,7 @@ def run_impl(d: dict):
         from krrood.entity_query_language.symbolic import UnificationDict
         ctor = entity_selection if d.get("rootsel") else entity_matching
         live = [] if d.get("live") else None
-        q = an(ctor(CLASSES[d["T"]], [built[i] for i in d["dom"]])(**build_kwargs(d["pat"], built, live, d.get("setlit"))))
+        q = an(ctor(CLASSES[d["T"]], None if d.get("nodomain") else [built[i] for i in d["dom"]])(**build_kwargs(d["pat"], built, live, d.get("setlit"))))
         if d.get("live") == 2:
             list(q.evaluate())                   # a first evaluation over the initial contents
         for lst, final in (live or []):
@@ -519,18 +576,20 @@ def classify(d: dict) -> Dict[str, int]:
     def hit(k):
         cl[k] = cl.get(k, 0) + 1
 
-    def tfilter(T, end):          # is_type_filter_needed (since a8e94bb)
-        return bool(T) and not issub(end, T)
+    def tfilter(T, end, opt=False):          # is_type_filter_needed (since a8e94bb / 5008deb)
+        return opt or (bool(T) and not issub(end, T))
 
     def first_cond(al, cname):
         """kind of the first condition the alist emits: None | 'exists' | 'other'"""
         for a, ap in al:
+            if (cname, a) not in ft:
+                return "other"
             it, end = ft[(cname, a)]
             if ap[0] in ("lit", "var"):
                 return "other"
             if ap[0] in ("any", "all", "sel_any", "sel_all"):
                 return "exists" if ap[0] in ("any", "sel_any") else "other"
-            if tfilter(ap[1], end):
+            if tfilter(ap[1], end, _OPTIONAL.get((cname, a), False)):
                 return "other"
             f = first_cond(ap[2], end)
             if f:
@@ -539,9 +598,14 @@ def classify(d: dict) -> Dict[str, int]:
 
     def walk(al, cname):
         for a, ap in al:
+            if (cname, a) not in ft:
+                hit("K_subattr")            # not a field of the DECLARED class (only of the matched subtype)
+                continue
             it, end = ft[(cname, a)]
             if ap[0] == "lit":
-                if not it and ap[1][0] in ("li", "ls", "lo"):
+                if a == "codes":
+                    hit("K_builtincoll")
+                elif not it and ap[1][0] in ("li", "ls", "lo", "le"):
                     hit("U_in")
                 if it and ap[1][0] in ("li", "ls", "lo") and not ap[1][1]:
                     pass
@@ -550,15 +614,17 @@ def classify(d: dict) -> Dict[str, int]:
             elif ap[0] in ("any", "all", "sel_any", "sel_all"):
                 if not ap[1][1]:
                     hit("K_emptylist")
+                elif a == "codes":
+                    hit("K_builtincoll")
                 elif ap[0] in ("all", "sel_all") and not it:
                     hit("U_all_scalar")
             else:
                 T = ap[1]
-                if a == "opt" and not tfilter(T, end) and any(o.get("opt", 0) is None for o in d["objs"] if o["cls"] == "Unit"):
-                    hit("K_nonevalue")      # only without a type filter: with one, HasType comes first and None just does not match
+                if a == "opt" and any(o.get("opt", 0) is None for o in d["objs"] if o["cls"] == "Unit"):
+                    hit("K_nonevalue")      # repaired (5008deb): counted, never tolerated
                 if T and not issub(T, end) and not issub(end, T):
                     hit("K_unrelated")
-                if it and not tfilter(T, end):
+                if it and not tfilter(T, end, _OPTIONAL.get((cname, a), False)):
                     f = first_cond(ap[2], end)
                     if f is None:
                         hit("K_emptynested")
@@ -597,6 +663,9 @@ def gen_cases(tier: str, seed: int) -> List[dict]:
         if r.chance(0.3):
             dom = dom[: max(1, len(dom) - 3)]
         case = {"objs": objs, "T": T, "pat": pat, "dom": dom, "rootsel": bool(sel and r.chance(0.4))}
+        if r.chance(0.08):
+            case["nodomain"] = True               # entity_matching(T, None): all live instances of T (falsy ones included)
+            case["dom"] = list(range(len(objs)))
         if r.chance(0.2):
             case["setlit"] = r.choice(["set", "frozenset", "tuple"])      # object value lists handed over as set / frozenset / tuple
         elif not wild and r.chance(0.25):
@@ -689,14 +758,14 @@ def gen_letvalue_cases(tier: str, seed: int) -> List[dict]:
         T = r.choice(["Rack", "Rack", "Unit"])
 
         def var_kw(cname):
-            a = r.choice([f for f in fields_of(cname) if ft[(cname, f)][1] != "str"])     # `'n0' in 'n0'` is a substring test
+            a = r.choice([f for f in fields_of(cname) if ft[(cname, f)][1] not in ("str", "Status") and f != "codes"])   # `'n0' in 'n0'` is a substring test
             it, end = ft[(cname, a)]
             lst = gen_list(r, objs, end, 1, 3)
             return [a, ["var", end, lst]]
         if r.chance(0.5):
             pat = [var_kw(T)]
         else:
-            cands = [a for a in fields_of(T) if ft[(T, a)][1] not in ("int", "str")]
+            cands = [a for a in fields_of(T) if ft[(T, a)][1] not in SCALARS]
             a = r.choice(cands)
             pat = [[a, ["match", ft[(T, a)][1], [var_kw(ft[(T, a)][1])], "match"]]]
         if r.chance(0.4):
@@ -707,7 +776,7 @@ def gen_letvalue_cases(tier: str, seed: int) -> List[dict]:
 
 def gen_none_cases(tier: str, seed: int) -> List[dict]:
     """worlds in which the Optional attribute Unit.opt is None for about half of the units; keywords on it: nested matches of
-    narrower type (a HasType filter comes first), of the declared type (finding C11-g: AttributeError), literals, match_any"""
+    narrower type (a HasType filter comes first), of the declared type (finding C11-g, repaired by 5008deb: was AttributeError), literals, match_any"""
     rng = core.Rng(seed).fork(1113)
     out = []
     for i in range(150 if tier == "quick" else 800):
@@ -732,8 +801,71 @@ def gen_none_cases(tier: str, seed: int) -> List[dict]:
     return out
 
 
+def unhashable_witness():
+    """corpus/C11/kf_unhashable.json: labels=match_all([Label('a')]) over racks labelled [a], [a, b], []"""
+    from krrood.entity_query_language.match import entity_matching, match_all
+    from krrood.entity_query_language.quantify_entity import an
+    field_table()
+    k, b = Knob("n0"), Box("n0")
+    racks = [Rack(b, k, [], [], set(), [Label(t) for t in ts]) for ts in (["a"], ["a", "b"], [])]
+    try:
+        res = list(an(entity_matching(Rack, racks)(labels=match_all([Label("a")]))).evaluate())
+        got = sorted({j for j, rk in enumerate(racks) for x in res if x is rk})
+    except Exception as e:  # noqa
+        got = type(e).__name__
+    return got, [0]
+
+
+def run_unhashable_stream(rep, tier: str, seed: int, open_classes) -> None:
+    """match_all / match_any / nested match over a collection of UNHASHABLE elements (Rack.labels: List[Label], Label a plain
+    dataclass).  Outside the Coq model: implementation vs the direct reading; TypeError from match_all is finding C11-j."""
+    from krrood.entity_query_language.match import entity_matching, match, match_any, match_all
+    from krrood.entity_query_language.quantify_entity import an
+    rng = core.Rng(seed).fork(1114)
+    st = {"cases": 0, "agree": 0, "TypeError (known finding C11-j)": 0}
+    for i in range(60 if tier == "quick" else 300):
+        r = rng.fork(i)
+        labels = [Label(r.choice(["a", "b", "c"])) for _ in range(4)]
+        k, b = Knob("n0"), Box("n0")
+        racks = [Rack(b, k, [], [], set(), r.sample(labels, r.randint(0, 3))) for _ in range(4)]
+        want = r.sample(labels, r.randint(0, 2))
+        kind = r.choice(["all", "all", "any", "nested", "lit"])
+        mem = lambda x, l: any(x == y for y in l)
+        if kind == "all":
+            val = match_all(list(want))
+            ok = lambda rk: all(mem(x, want) for x in rk.labels) and all(mem(y, rk.labels) for y in want)
+        elif kind == "any":
+            val = match_any(list(want))
+            ok = lambda rk: any(mem(x, want) for x in rk.labels)
+        elif kind == "lit":
+            val = labels[0]
+            ok = lambda rk: mem(labels[0], rk.labels)
+        else:
+            t = r.choice(["a", "b"])
+            val = match(Label)(text=t)
+            ok = lambda rk: any(x.text == t for x in rk.labels)
+        exp = sorted(j for j, rk in enumerate(racks) if ok(rk))
+        try:
+            res = list(an(entity_matching(Rack, racks)(labels=val)).evaluate())
+            got = sorted({j for j, rk in enumerate(racks) for x in res if x is rk})
+        except Exception as e:  # noqa
+            got = type(e).__name__
+        st["cases"] += 1
+        descr = {"kind": kind, "racks": [[l.text for l in rk.labels] for rk in racks], "want": [l.text for l in want]}
+        rep.count("unhashable:" + json.dumps(descr), bool(exp))
+        if got == exp:
+            st["agree"] += 1
+        elif got == "TypeError" and kind == "all" and "K_unhashable" in open_classes:
+            st["TypeError (known finding C11-j)"] += 1
+        else:
+            rep.violation({"kind": "counterexample", "case": descr, "impl": got, "spec": exp,
+                           "python": "see harness/c11.py:run_unhashable_stream (Rack.labels: List[Label], Label an unhashable dataclass)",
+                           "explanation": "labels=<kind>(want) over racks whose labels are given by text; expected = indices of the racks satisfying the reading"})
+    rep.extra["unhashable_elements"] = st
+
+
 TYPEERROR = [-1, sum(map(ord, "TypeError"))]
-KF_CLASSES = ("K_emptynested", "K_letvalue", "K_nonevalue")   # K_emptylist (C11-b), K_existsfirst (C11-c), K_unrelated (C11-d) are repaired: counted, never tolerated
+KF_CLASSES = ("K_emptynested", "K_letvalue", "K_builtincoll", "K_subattr")   # K_emptylist (C11-b), K_existsfirst (C11-c), K_unrelated (C11-d) are repaired: counted, never tolerated
 UNSPEC = ("U_in", "U_all_scalar")
 
 
@@ -777,11 +909,13 @@ def run(tier: str, seed: int, replay=None) -> int:
         cdir = core.VERIF / "corpus" / PROP
         if cdir.is_dir():
             for p in sorted(cdir.glob("*.json")):
-                corpus.append((p.name, json.loads(p.read_text())))
+                c = json.loads(p.read_text())
+                if "stream" not in c:                    # witnesses of side streams are replayed by their own code
+                    corpus.append((p.name, c))
         descrs = [c["case"] for _, c in corpus] + gen_cases(tier, seed) + gen_directed(tier, seed)
     if not replay:
         descrs += gen_letvalue_cases(tier, seed)        # keywords whose value is a let-variable (finding C11-f)
-        descrs += gen_none_cases(tier, seed)            # None-valued Optional attributes (finding C11-g)
+        descrs += gen_none_cases(tier, seed)            # None-valued Optional attributes (C11-g, repaired)
     ncorpus = len(corpus)
 
     impls, terms, builts = [], [], []
@@ -832,6 +966,8 @@ def run(tier: str, seed: int, replay=None) -> int:
         bump("in_F" if inf else "outside_F")
         if d.get("live"):
             bump(f"live value lists (mode {d['live']})")
+        if d.get("nodomain"):
+            bump("no explicit domain (symbol graph)")
         if inflax and not inf:
             bump("in_F11lax only (finding C11-e characterised by C11_match_lax)")
         if inflax and model is not None and not sel_case and model != lax:
@@ -876,11 +1012,24 @@ def run(tier: str, seed: int, replay=None) -> int:
                            "explanation": "outcome = sorted identities (1-based object index) of the elements returned; spec = elements of type T satisfying the pattern; "
                                           "for a pattern with select / entity_selection: the set of rows of the selected expressions, each value as "
                                           "[0,int] | [1,object] | [3,[objects]]"})
+    if not replay:
+        run_unhashable_stream(rep, tier, seed, open_classes)
     # known findings and fixed entries: replay the witnesses
     if not replay:
         by_name = {n: k for k, (n, _) in enumerate(corpus)}
         for f in findings:
             name = f.witness.split("/")[-1]
+            if f.cls == "K_unhashable":
+                got, exp = unhashable_witness()
+                if got == "TypeError" and got != exp:
+                    rep.known(f)
+                elif got == exp:
+                    rep.note(f"known finding {f.fid} no longer reproduces on its witness (repaired?)")
+                else:
+                    rep.violation({"kind": "counterexample", "finding": f.fid, "impl": got, "spec": exp,
+                                   "python": "from harness import c11; print(c11.unhashable_witness())",
+                                   "explanation": "the witness of C11-j fails differently from what is recorded"})
+                continue
             if name not in by_name:
                 rep.oblige(f"witness:{f.fid}", False, f"witness {f.witness} missing")
                 continue
